@@ -44,6 +44,7 @@ class ClassInfo:
         self.implements = []
         self.wiring = {}              # attr -> class name
         self.attr_fields = []         # attrs fields (class-level `x = attrib(...)`)
+        self.field_ifaces = {}        # attrs field -> interface name it must provide
 
     @property
     def is_machine(self):
@@ -103,6 +104,16 @@ def extract_class(node, file):
                 ci.mvars.add(st.targets[0].id)
             elif fname in ("attrib", "ib", "field") and len(st.targets) == 1 and isinstance(st.targets[0], ast.Name):
                 ci.attr_fields.append(st.targets[0].id)
+                # x = attrib(validator=provides(IFoo)): the field holds an implementer of IFoo
+                for k in st.value.keywords:
+                    if k.arg == "validator" and isinstance(k.value, ast.Call) and dotted(k.value.func) in ("provides", "optional"):
+                        inner = k.value
+                        if dotted(inner.func) == "optional" and inner.args and isinstance(inner.args[0], ast.Call):
+                            inner = inner.args[0]
+                        if dotted(inner.func) == "provides" and inner.args:
+                            iname = dotted(inner.args[0])
+                            if iname:
+                                ci.field_ifaces[st.targets[0].id] = iname.split(".")[-1]
     for d in node.decorator_list:
         if isinstance(d, ast.Call) and isinstance(d.func, ast.Name) and d.func.id == "implementer":
             for a in d.args:
@@ -209,6 +220,11 @@ class Program:
 
     def _wire(self):
         for c in self.classes.values():
+            for fld, iname in c.field_ifaces.items():
+                impl = self.iface_impl.get(iname)
+                if impl and len(impl) == 1:
+                    c.wiring.setdefault(fld, impl[0])
+        for c in self.classes.values():
             for fn in list(c.methods.values()):
                 for n in ast.walk(fn):
                     if isinstance(n, ast.Assign) and len(n.targets) == 1:
@@ -225,6 +241,16 @@ class Program:
                                     c.wiring[t.attr] = tuple(impl)
                             elif fname in self.classes:
                                 c.wiring[t.attr] = fname
+                        elif isinstance(t, ast.Attribute) and isinstance(t.value, ast.Name) and t.value.id == "self" \
+                                and isinstance(n.value, ast.Name):
+                            # self._x = <local>  where the local is bound once to a constructor call of a package class
+                            defs = [a.value for a in ast.walk(fn) if isinstance(a, ast.Assign) and len(a.targets) == 1
+                                    and isinstance(a.targets[0], ast.Name) and a.targets[0].id == n.value.id]
+                            if len(defs) == 1 and isinstance(defs[0], ast.Call):
+                                f2 = defs[0].func
+                                fn2 = f2.attr if isinstance(f2, ast.Attribute) else getattr(f2, "id", None)
+                                if fn2 in self.classes and t.attr not in c.wiring:
+                                    c.wiring[t.attr] = fn2
 
     def machine(self, name):
         c = self.classes.get(name)
